@@ -260,10 +260,11 @@ func (q PathQuery) Count() Interval {
 		}
 		for i := from; i < len(b.Instrs); i++ {
 			in := b.Instrs[i]
+			stops := q.Stop != nil && q.Stop(in)
 			if q.Weight != nil {
 				lo, hi := q.Weight(in)
-				if lo == 0 && hi == 0 {
-					lo, hi = q.calleeWeight(in)
+				if lo == 0 && hi == 0 && !stops {
+					lo, hi = q.calleeWeight(in) // (what a stopping call does inside lies beyond the stop)
 				}
 				n.min += lo
 				if n.max < Inf {
@@ -273,7 +274,7 @@ func (q PathQuery) Count() Interval {
 					}
 				}
 			}
-			if q.Stop != nil && q.Stop(in) {
+			if stops {
 				n.terminal = true
 				break
 			}
